@@ -90,6 +90,8 @@ func HostileSeeds() []Seed {
 	} {
 		add("action-"+strconv.Quote(a), fmt.Sprintf("a : 'a' ;\nb : 'b' ;\nS : a b << %s >> ;\n", a))
 	}
+	// attribute references with two digits
+	add("action-$10", "a : 'a' ;\nS : a a a a a a a a a a a a << []interface{}{$0, $9, $10, $11, $Context}, nil >> | a a << $1, nil >> ;\n")
 	// file header with imports and declarations
 	add("header-import", "a : 'a' ;\n<< import (\n\t\"fmt\"\n\t\"strings\"\n)\nvar _ = fmt.Sprint\nvar _ = strings.ToUpper >>\nS : a << fmt.Sprint($0), nil >> ;\n")
 	return out
